@@ -130,6 +130,9 @@ scopeA
     aaa  1;
 }}
 Bkey  3;
+reserve
+{{
+}}
 """
 
 
@@ -139,6 +142,8 @@ def make_sources(rng, base: Path, n: int):
         (base / f"inc_{i}").write_text(f"// comment of the include file\nfromInclude  {i}; // trailing comment in the include\n"
                                        f"scopeA {{ incInScope {i}; sub {{ incLeaf {i}; }} }}\n/* block comment of the include */\n")
         (base / f"parsed.src{i}").write_text("preExisting  1;\nscopeA { old 2; }\n")   # matters for --mode a
+    (base / "umbrella").write_text("#include 'inc_0'\n")        # nothing of its own: with -I the parsed result is empty
+    (base / "parsed.umbrella").write_text("preExisting  1;\n")
 
 
 JSON_SRC = '{"2": {"a": 1, "b": {"c": 2}}, "cases": {"20": {"x": 1.5}, "name": {"y": true}}, "top": 0}'
@@ -406,8 +411,14 @@ def run(ctx):
     sjobs = [(dict(base0, scope=sp, out=o), "num.json", ctx.seed + 1000 + i) for i, sp in enumerate(SCOPE_SPELLINGS) for o in (None, "json")]
     with ThreadPoolExecutor(max_workers=16) as ex:
         sresults = list(ex.map(e2e_case, sjobs))
-    jobs = jobs + sjobs
-    results = results + sresults
+    # legitimately EMPTY results: an empty scope, a comments-only scope read with -C, an include-only file read with -I
+    ejobs = [(dict(base0, scope="reserve"), "src0", ctx.seed + 2000), (dict(base0, scope="[reserve]", out="foam"), "src1", ctx.seed + 2001),
+             (dict(base0, scope="reserve", append=True), "src0", ctx.seed + 2002), (dict(base0, I=True), "umbrella", ctx.seed + 2003),
+             (dict(base0, I=True, append=True), "umbrella", ctx.seed + 2004), (dict(base0, I=True, C=True, out="foam"), "umbrella", ctx.seed + 2005)]
+    with ThreadPoolExecutor(max_workers=16) as ex:
+        eresults = list(ex.map(e2e_case, ejobs))
+    jobs = jobs + sjobs + ejobs
+    results = results + sresults + eresults
     # validate_scope: model vs implementation on scope strings
     from dictIO.cli.dict_parser import _validate_scope
 
